@@ -708,7 +708,7 @@ fn run(db: &dyn Db, key: String, sel: FnSel, hs0: Vec<Id>, is0: Vec<(i64, Id)>) 
                 hs.push(id);
                 created.push(id);
                 evk!(key, "e": "new", "id": idstr(id), "ix": id.index(), "gn": id.generation(),
-                    "ident": nd.a, "x": nd.b, "y": nd.c, "pos": created.len(), "xs": xs, "ys": ys);
+                    "ident": nd.a, "x": nd.b, "y": nd.c, "pos": if def.fwd != 0 && matches!(sel, FnSel::F(_)) { hs.len() } else { created.len() }, "xs": xs, "ys": ys);
                 cb("read");
                 n = kid(0);
             }
